@@ -279,6 +279,34 @@ func clusterHandlerRouting(c *rt.Ctx, nkeys int) {
 		}
 		hB, _ := cluster.NewHandler(rev, "verif")
 		hC, _ := cluster.NewHandler(append(append([]string{}, addrs[1:]...), addrs[0]), "verif")
+		// a node that is unreachable at the moment a client connection is set up: that connection may
+		// be refused, but it must not be given a ring of its own (keys of the missing node would go
+		// elsewhere for this connection only, for as long as it lives)
+		for down := 0; down < n && down < 3; down++ {
+			refused := false
+			inner := vnet.DialHook
+			vnet.DialHook = func(network, address string) (net.Conn, error) {
+				if address == addrs[down] && !refused {
+					refused = true
+					return nil, fmt.Errorf("dial tcp %s: connect: connection refused", address)
+				}
+				return inner(network, address)
+			}
+			hD, err := cluster.NewHandler(addrs, "verif")
+			vnet.DialHook = inner
+			c.Eval(1)
+			if err != nil {
+				continue // refusing the connection is fine
+			}
+			for i := 0; i < nkeys; i++ {
+				k := fmt.Sprintf("ck:%d:%x", i, i*40503)
+				if a, b := hA.Continuum.Hash([]byte(k)).Label(), hD.Continuum.Hash([]byte(k)).Label(); a != b {
+					c.Violation("C19 connection-dependent-routing-after-dial-failure", fmt.Sprintf("%d nodes: a connection set up while node %s refused its dial routes key %q to %s, every other connection to %s", n, addrs[down], k, b, a),
+						map[string]interface{}{"labels": addrs, "down": addrs[down], "key": k})
+					break
+				}
+			}
+		}
 		vnet.DialHook = nil
 		moved := 0
 		for i := 0; i < nkeys; i++ {
